@@ -41,7 +41,12 @@ func TestVerifC34(t *testing.T) {
 				r.Emit(l, "bad-op")
 				continue
 			}
-			s := FormatBalance(x)
+			s, pmsg := c34Format(x)
+			if pmsg != "" {
+				r.Emit(l, "panic")
+				r.Violation("format-panics", "FormatBalance(%d) panics: %s", x, pmsg)
+				continue
+			}
 			r.Emit(l, s)
 			class := "<2^53"
 			if x >= 1<<53 {
@@ -56,8 +61,10 @@ func TestVerifC34(t *testing.T) {
 				r.Violation("format-inexact"+class, "FormatBalance(%d) = %q, exact is %q", x, s, want)
 			}
 			// oracle 2: round trip
-			back, err := ParseBalance(s)
-			if err != nil || back != x {
+			back, err, pmsg := c34ParseSafe(s)
+			if pmsg != "" {
+				r.Violation("parse-panics", "ParseBalance(%q) panics: %s", s, pmsg)
+			} else if err != nil || back != x {
 				r.Violation("roundtrip"+class, "ParseBalance(FormatBalance(%d) = %q) = %d, %v", x, s, back, err)
 			}
 			r.Distinct(l)
@@ -74,8 +81,33 @@ func TestVerifC34(t *testing.T) {
 	}
 }
 
+// a panic inside the code under test is an observation, not a harness crash
+func c34Format(x uint64) (s string, panicMsg string) {
+	defer func() {
+		if p := recover(); p != nil {
+			panicMsg = fmt.Sprint(p)
+		}
+	}()
+	return FormatBalance(x), ""
+}
+
+func c34ParseSafe(s string) (v uint64, err error, panicMsg string) {
+	defer func() {
+		if p := recover(); p != nil {
+			panicMsg = fmt.Sprint(p)
+		}
+	}()
+	v, err = ParseBalance(s)
+	return v, err, ""
+}
+
 func c34Parse(r *verifh.Run, l, s string) {
-	v, err := ParseBalance(s)
+	v, err, pmsg := c34ParseSafe(s)
+	if pmsg != "" {
+		r.Emit(l, "panic")
+		r.Violation("parse-panics", "ParseBalance(%q) panics: %s", s, pmsg)
+		return
+	}
 	out := ""
 	switch {
 	case err == nil:
@@ -128,14 +160,16 @@ func c34Generate(r *verifh.Run) []string {
 	fm := func(x uint64) { lines = append(lines, "fmt "+strconv.FormatUint(x, 10)) }
 	ps := func(s string) { lines = append(lines, "parse "+verifh.Hex([]byte(s))) }
 	// corpus first: the design-time witnesses and the unit-test table
-	for _, x := range []uint64{1<<53 + 1, 123456789123456789, ^uint64(0), 4095, 131071, 8409750536405689, 1 << 53, 1<<53 - 1, 0, 1, 999999999, 1000000000, 123456789, 1234567890, 9876543210} {
+	for _, x := range []uint64{9999999999999999999, 10000000000000000000, 10000000000000000001, 999999999999999999, 1000000000000000000,
+		18446744073000000000, 18446744072999999999, 18446744072000000000, 18446744073709551614, 1<<53 + 1, 123456789123456789, ^uint64(0), 4095, 131071, 8409750536405689, 1 << 53, 1<<53 - 1, 0, 1, 999999999, 1000000000, 123456789, 1234567890, 9876543210} {
 		fm(x)
 	}
 	for _, s := range []string{
 		"9007199.254740993", "123456789.123456789", "18446744073.709551615", "18446744073.709551616",
 		"0.000000247", "0.57", "0.29", "1.1", "4.35", "1.000000000", "0.123456789", "0.000000000", "invalid", "", ".", "1.", ".5", "1e3",
 		"+1", "-1", "-0", "inf", "NaN", "0x1p3", "1_000", "1.0000000000", "0.0000000001", " 1", "1 ", "1..2", "1.2.3", "١",
-		"18446744074", "18446744073", "99999999999999999999", "000000000000000000000000000001.5",
+		"18446744074", "18446744073", "18446744072", "18446744072.999999999", "18446744073.000000000", "18446744074.000000000",
+		"10000000000", "10000000000.000000000", "9999999999.999999999", "99999999999999999999", "000000000000000000000000000001.5",
 	} {
 		ps(s)
 	}
@@ -155,7 +189,7 @@ func c34Generate(r *verifh.Run) []string {
 		case 1:
 			fm(rng.U64())
 		case 2: // near multiples of the unit and near 2^53 / 2^64
-			base := []uint64{1 << 53, 1 << 63, ^uint64(0) - 5, 1e9, 1e18, 18446744073000000000, 1e10}[rng.Intn(7)]
+			base := []uint64{1 << 53, 1 << 63, ^uint64(0) - 5, 1e9, 1e18, 18446744073000000000, 1e10, 1e19, 1e19, 1e17}[rng.Intn(10)]
 			fm(base + uint64(rng.Intn(11)) - 5)
 		case 3: // well-formed decimal
 			w := digits(rng.Intn(12))
